@@ -5,6 +5,7 @@ CONSTANTS
   MaxChain = 3
   MaxWrites = 6
   MaxReopens = 2
+  DevStaleStamp = FALSE
   DevF7 = FALSE
 INVARIANTS TypeOK ReopenSeesPersisted ChainMatchesFile ChainBounded AgesOK MemoryCoversFile FilterSound
 PROPERTIES PersistIsCurrent
